@@ -462,6 +462,9 @@ pub fn obs_bits_eq<T: Sc>(a: &Obs<T>, b: &Obs<T>) -> bool {
     }
     o(&a.c, &b.c) && o(&a.r, &b.r) && o(&a.j, &b.j)
 }
+pub fn obs_close_pub<T: Sc>(a: &Obs<T>, b: &Obs<T>) -> f64 {
+    obs_close(a, b)
+}
 fn obs_close<T: Sc>(a: &Obs<T>, b: &Obs<T>) -> f64 {
     fn o<T: Sc>(x: &Option<Vec<T>>, y: &Option<Vec<T>>) -> f64 {
         match (x, y) {
